@@ -11,8 +11,11 @@
       src/jobc.rs     wait_fg_job (one loop iteration = [wait_body]),
                       try_wait_bg_jobs, mark_job_as_done, mark_job_member_stopped /
                       _continued (with the lines they print)
-      src/shell.rs    remove_pid_from_job (by position, as in the current source);
-                      the other job-table methods come from Model/Jobs.v
+      src/shell.rs    remove_pid_from_job (by position), mark_job_member_continued
+                      (sets Running since ac01883); the other job-table methods
+                      come from Model/Jobs.v
+      src/signals.rs  the parked maps; a parked stop and a parked continue of
+                      one pid supersede each other since ac20f13 ([park2])
       src/builtins    fg.rs, bg.rs, jobs.rs
       src/main.rs     the read loop: an empty line polls, every other line ends
                       with a poll ([end_of_line])
@@ -27,14 +30,19 @@
          unreported stop, else its unreported continuation; a continuation
          replaces an unreported stop;
       K4 waitpid fails with ECHILD when every child has been reaped;
-      K5 [setpgid(0, g)] in a later stage succeeds iff the group [g] exists then,
-         that is iff stage 0 has already run its own setpgid: the oracle list
-         [joined] of a launch says which stages won that race;
-      K6 whether [tcsetpgrp(pid0)] at launch succeeds is the oracle bit [tc_ok]
-         (POSIX: fails when the group does not exist yet; Linux resolves the
-         number as a pid of the session as well, so there it always succeeds);
-         [tcsetpgrp(g)] in [fg] succeeds iff some unreaped process has group [g];
-         handing the terminal back to the shell's own group always succeeds.
+      K5 [setpgid(p, g)] succeeds when [g = p] or some unreaped process has
+         group [g]. Since /repo b465168 the parent calls [setpgid(pid, *pgid)]
+         after every fork and the child calls the same: whichever runs first,
+         stage 0 leads its own group before the next stage is forked, and a
+         later stage is in that group as soon as either call has run (stage 0
+         is not reaped during the launch). So every stage is in group [pid0];
+         the launch has no schedule oracle any more. (Until b465168 only the
+         child called setpgid and a later stage could lose the race against
+         stage 0: finding stage_outside_group, now fixed.)
+      K6 [tcsetpgrp(g)] succeeds iff some unreaped process has group [g]
+         (at launch: stage 0 itself, by K5; in [fg]: a member that has not
+         been reaped); handing the terminal back to the shell's own group
+         always succeeds.
     Pids are supplied by the launch action (the environment chooses them).
     A typed line while the shell is waiting is ignored (the shell is not
     reading). Keys at the prompt are read by lineread in raw mode: no signal.
@@ -167,7 +175,13 @@ Fixpoint remove_pid (t : table) (gid pid : Z) : table * option job :=
 Definition job_done (k : core) (gid pid reason : Z) : core :=
   match remove_pid (tab k) gid pid with
   | (t, Some j) => mkcore (procs k) t (mps k) (outs k ++ (if jbg j then [ODone (jid j) gid reason] else []))
-  | (t, None) => mkcore (procs k) t (mps k) (outs k)
+  | (t, None) =>
+      (* the job lives on: if every remaining member is stopped, so is the job (2503a9b) *)
+      let all_stopped := match get_job_by_gid t gid with
+                         | Some j => match jst j with Stopped => false | Running => all_members_stopped j end
+                         | None => false
+                         end in
+      mkcore (procs k) (if all_stopped then sh_mark_job_as_stopped t gid else t) (mps k) (outs k)
   end.
 
 (** jobc.rs mark_job_member_stopped (the wrapper looks the job up by [gid] as given) *)
@@ -185,24 +199,44 @@ Definition member_stopped (k : core) (pid gid : Z) (report : bool) : core :=
   | (t, None) => mkcore (procs k) t (mps k) (outs k)
   end.
 
-Definition member_continued (k : core) (pid gid : Z) : core :=
-  mkcore (procs k) (mark_job_member_continued (tab k) pid gid) (mps k) (outs k).
+(** shell.rs mark_job_member_continued: the pid leaves the stopped set and the job is Running (ac01883) *)
+Definition sh_member_continued (t : table) (pid gid : Z) : table * option job :=
+  let t' := upd_gid (fun j => mkjob (jid j) (jgid j) (jpids j) (set_remove pid (jstopped j)) Running (jbg j)) gid t in
+  (t', get_job_by_gid t' gid).
 
-Definition park_ev (k : core) (e : ev) : core := mkcore (procs k) (tab k) (park (mps k) e) (outs k).
+(** jobc.rs mark_job_member_continued *)
+Definition member_continued (k : core) (pid gid : Z) : core :=
+  match sh_member_continued (tab k) pid gid with
+  | (t, Some j) => mkcore (procs k) (if all_members_running j then sh_mark_job_as_running t gid true else t) (mps k) (outs k)
+  | (t, None) => mkcore (procs k) t (mps k) (outs k)
+  end.
+
+(** signals.rs insert_*_map: a stop removes a parked continue of the pid and vice versa (ac20f13) *)
+Definition park2 (m : maps) (e : ev) : maps :=
+  match e with
+  | Exited p s => mkmaps (map_put p s (m_reap m)) (m_stop m) (m_cont m) (m_kill m)
+  | StoppedE p _ => mkmaps (m_reap m) (set_add p (m_stop m)) (set_remove p (m_cont m)) (m_kill m)
+  | Continued p => mkmaps (m_reap m) (set_remove p (m_stop m)) (set_add p (m_cont m)) (m_kill m)
+  | Signaled p s => mkmaps (m_reap m) (m_stop m) (m_cont m) (map_put p s (m_kill m))
+  end.
+
+Definition park_ev (k : core) (e : ev) : core := mkcore (procs k) (tab k) (park2 (mps k) e) (outs k).
 
 (** one iteration of the loop of wait_fg_job for the status [e]; returns the
-    new count_waited *)
-Definition wait_body (k : core) (gid : Z) (pids : list Z) (waited : nat) (e : ev) : core * nat :=
+    new set of settled members (exited / killed / currently stopped), 1687e77 *)
+Definition wait_body (k : core) (gid : Z) (pids : list Z) (waited : list Z) (e : ev) : core * list Z :=
   let pid := ev_pid e in
   let is_fg := memZ pid pids in
-  let waited' := if is_fg && negb (is_cont e) then S waited else waited in
+  let waited' := if is_fg then (if is_cont e then set_remove pid waited else set_add pid waited) else waited in
   let k' :=
     match e with
     | Exited _ _ => if is_fg then job_done k gid pid (-1) else park_ev k e
     | StoppedE _ _ =>
         if is_fg then member_stopped k pid gid true
         else member_stopped (park_ev k e) pid 0 false
-    | Continued _ => if is_fg then k else park_ev k e
+    | Continued _ =>
+        if is_fg then mkcore (procs k) (fst (sh_member_continued (tab k) pid gid)) (mps k) (outs k)
+        else park_ev k e
     | Signaled _ _ => if is_fg then job_done k gid pid (-2) else park_ev k e
     end in
   (k', waited').
@@ -252,7 +286,7 @@ Definition poll (report : bool) (k : core) : core :=
 
 (** ---------- shell side: the terminal *)
 Inductive via := VLaunch (term_given : bool) | VFg.
-Inductive mode := AtPrompt | Waiting (gid : Z) (pids : list Z) (waited : nat) (v : via).
+Inductive mode := AtPrompt | Waiting (gid : Z) (pids : list Z) (settled : list Z) (v : via).
 
 Record st := mkst { k : core; md : mode; owner : Z }.
 
@@ -274,7 +308,7 @@ Fixpoint settle (c : cfg) (fuel : nat) (s : st) : st :=
           match next_status (procs (k s)) with
           | Some (e, ps) =>
               let '(k', w') := wait_body (set_procs (k s) ps) gid pids w e in
-              if negb (is_cont e) && (length pids <=? w')%nat then finish c k' v (owner s)
+              if negb (is_cont e) && (length pids <=? length w')%nat then finish c k' v (owner s)
               else settle c f (mkst k' (Waiting gid pids w' v) (owner s))
           | None => if all_gone (procs (k s)) then finish c (k s) v (owner s) else s
           end
@@ -286,28 +320,22 @@ Definition settle_all (c : cfg) (s : st) : st := settle c (S (length (procs (k s
 Definition enter_wait (c : cfg) (k : core) (gid : Z) (pids : list Z) (v : via) (ow : Z) : st :=
   match pids with
   | [] => finish c k v ow
-  | _ => settle_all c (mkst k (Waiting gid pids 0%nat v) ow)
+  | _ => settle_all c (mkst k (Waiting gid pids [] v) ow)
   end.
 
 Definition end_of_line (k : core) (ow : Z) : st := mkst (poll true k) AtPrompt ow.
 
-(** the children of one launch: stage 0 leads its own group; a later stage
-    joins it iff its oracle bit says so (default: joined), else it stays in
-    the shell's group *)
-Fixpoint later_stages (p0 shpg : Z) (rest : list Z) (joined : list bool) : list proc :=
-  match rest with
-  | [] => []
-  | p :: r =>
-      let j := match joined with [] => true | b :: _ => b end in
-      mkproc p (if j then p0 else shpg) PRun NNone None :: later_stages p0 shpg r (tl joined)
-  end.
+(** the children of one launch (K5): every stage is in the group of stage 0 *)
+Definition stages (p0 : Z) (pids : list Z) : list proc :=
+  map (fun p => mkproc p p0 PRun NNone None) pids.
 
-Definition launch (c : cfg) (s : st) (pids : list Z) (bg tc_ok : bool) (joined : list bool) : st :=
+Definition launch (c : cfg) (s : st) (pids : list Z) (bg : bool) : st :=
   match pids with
   | [] => s
   | p0 :: rest =>
-      let ps := procs (k s) ++ mkproc p0 p0 PRun NNone None :: later_stages p0 (c_sh c) rest joined in
-      let tg := c_hasterm c && c_isatty c && negb bg && tc_ok in
+      let ps := procs (k s) ++ stages p0 (p0 :: rest) in
+      (* give_terminal_to(pid0) iff has_terminal && isatty && !background; K6 *)
+      let tg := c_hasterm c && c_isatty c && negb bg && group_exists p0 ps in
       let ow := if tg then p0 else owner s in
       let t := if c_isatty c then fold_left (fun t p => insert_job t p0 p bg) pids (tab (k s)) else tab (k s) in
       if bg then
@@ -371,7 +399,7 @@ Definition do_jobs (s : st) : st :=
   end.
 
 Inductive action :=
-| ALaunch (pids : list Z) (bg tc_ok : bool) (joined : list bool)
+| ALaunch (pids : list Z) (bg : bool)
 | AFg (arg : option Z) (pick : Z)
 | ABg (arg : option Z) (pick : Z)
 | AJobs
@@ -401,7 +429,7 @@ Definition typed (s : st) (f : st -> st) : st :=
 
 Definition step (c : cfg) (s : st) (a : action) : st :=
   match a with
-  | ALaunch pids bg tc_ok joined => typed s (fun s => launch c s pids bg tc_ok joined)
+  | ALaunch pids bg => typed s (fun s => launch c s pids bg)
   | AFg arg pick => typed s (fun s => do_fg c s arg pick)
   | ABg arg pick => typed s (fun s => do_bg s arg pick)
   | AJobs => typed s do_jobs
